@@ -264,6 +264,16 @@ pub enum Ctx {
     Empty,
     Direct,
     Ptr,
+    AbsArr,
+}
+
+impl Ctx {
+    fn after_arr(self) -> Ctx {
+        match self {
+            Ctx::Empty | Ctx::AbsArr => Ctx::AbsArr,
+            _ => Ctx::Direct,
+        }
+    }
 }
 
 #[derive(Clone, Copy, Debug, PartialEq, Eq, Hash, PartialOrd, Ord)]
@@ -309,7 +319,7 @@ pub fn defect(a: bool, ctx: Ctx, t: &Ty) -> Option<Defect> {
         Ty::Ptr { t, .. } => defect(a, Ctx::Ptr, t),
         Ty::Array { t, .. } => {
             if a {
-                defect(a, Ctx::Direct, t)
+                defect(a, ctx.after_arr(), t)
             } else if ctx == Ctx::Ptr {
                 Some(Defect::ArrayUnderPtr)
             } else if !ptr_base(t) {
@@ -323,7 +333,7 @@ pub fn defect(a: bool, ctx: Ctx, t: &Ty) -> Option<Defect> {
                 Some(Defect::FnConst)
             } else if *v {
                 Some(Defect::FnVariadic)
-            } else if ctx == Ctx::Empty {
+            } else if ctx == Ctx::Empty || ctx == Ctx::AbsArr {
                 Some(Defect::FnNoDeclarator)
             } else if !ptr_base(ret) {
                 Some(Defect::FnRet)
